@@ -97,6 +97,7 @@ def meta_for(sc, cfg):
             'hasOld': bool(t.get('old')), 'nsubs': len(subs),
             'provide': any('provide_size' in s for s in subs),
             'faultFree': not faulty, 'override': override,
+            'shortsrc': bool(t.get('src_reads')),
         })
     c = {k: cfg[k] for k in ('R', 'S', 'RQ', 'SQ', 'IOQ', 'io_chunk',
                              'attempts', 'up_chunks', 'down_chunks', 'chunk',
@@ -171,6 +172,9 @@ def normalize(res, sc, tid):
                               'l': loc.get('len', 0),
                               'etag': bool(p.get('etag_ok')),
                               'crc': bool(p.get('crc_ok'))})
+            if e['op'] == 'GetObject' and 'start' in e:
+                body = {'start': e['start'], 'len': e['len']}
+                bsrc = 'own'
             uid = info.get('uid', 0)
             if e['op'] == 'CreateMultipartUpload':
                 uid = _uid(e.get('UploadId'))
